@@ -214,6 +214,11 @@ def classify(c, events, k):
                 return "AKEY"
             if ("&" + m.group(1)) in c.get("input", "") and not re.search(r"(=|del\(|\*)", c.get("prog", "")):
                 return "SUBALIAS"
+            if ("&" + m.group(1)) in c.get("input", "") and re.search(r"\|?=", c.get("prog", "")) \
+                    and ("*" + m.group(1)) in c.get("yaml_out", ""):
+                # an assignment / update replaced the anchored node; the anchor is gone from the output but
+                # aliases to it are still printed
+                return "UPDANCHOR"
         return ""
     ev = [x for x in events[max(0, k - 1):k + 1] if x.get("e") == "obs"]
     if len(ev) == 2 and ev[0]["v"] != ev[1]["v"]:
